@@ -8,6 +8,7 @@ from flamapy.metamodels.fm_metamodel.operations import (
     FMVariationPoints)
 from flamapy.metamodels.fm_metamodel.transformations import XMLReader
 
+from .. import build as bd
 from .. import engine, sem
 from .. import shadow as sh
 from .. import space as sp
@@ -128,6 +129,13 @@ def cases(tier, seed):
     from . import families as fam
     for spec in fam.BIG_SPECS:
         yield ('B', spec)
+    # one set of operation objects over two models in a row, and over a failing execution first
+    alpha = list(sp.structures_upto(3))
+    for m1 in alpha:
+        for m2 in alpha:
+            yield ('SH', m1, m2)
+    for m in list(sp.structures_upto(4 if tier == 'quick' else 5))[1:]:
+        yield ('SF', m)
 
 
 def plan(tier):
@@ -147,15 +155,24 @@ def describe(case):
         return 'B:%s' % (case[1],)
     if case[0] == 'X':
         return 'X:' + case[1]
+    if case[0] == 'SH':
+        return 'SH:%s -> %s' % (sh.model_str(case[1]), sh.model_str(case[2]))
     return cm.describe_model_case(case)
 
 
 def reduce(case):
     if case[0] in ('X', 'B'):
         return
-    if case[0] == 'SE':
+    if case[0] in ('SE', 'SF'):
         for c in cm.reduce_model_case(('S', case[1])):
-            yield ('SE', c[1])
+            if case[0] == 'SE' or sh.size(c[1]) > 1:
+                yield (case[0], c[1])
+        return
+    if case[0] == 'SH':
+        for r in sh.reductions(case[1], sp.NAME_POOL):
+            yield ('SH', r, case[2])
+        for r in sh.reductions(case[2], sp.NAME_POOL):
+            yield ('SH', case[1], r)
         return
     m = case[1]
     if sh.size(m) > 40:
@@ -164,7 +181,7 @@ def reduce(case):
 
 
 def normalize(case):
-    if case[0] in ('X', 'B'):
+    if case[0] in ('X', 'B', 'SH'):
         return case
     return (case[0], sh.normalize_names(case[1], sp.NAME_POOL))
 
@@ -307,10 +324,80 @@ def check(case):
             if after:
                 return after
         return []
+    if case[0] == 'SH':
+        ops = {}
+        fm, fails = cm.built(model)
+        if fails:
+            return fails
+        first = oracle(fm, model, ops)
+        if first:
+            return first
+        fm2, fails = cm.built(case[2])
+        if fails:
+            return fails
+        second = oracle(fm2, case[2], ops)
+        for f in second:
+            f.clause = 'after-another-model:' + f.clause
+        return second
+    if case[0] == 'SF':
+        return _failure_history(model)
     fm, fails = cm.built(model)
     if fails:
         return fails
     return oracle(fm, model)
+
+
+FOREIGN = sh.M(sh.F('Zq', [sh.R(1, 1, [sh.F('Yq')]), sh.R(0, 1, [sh.F('Xq')])]))
+
+
+def _failure_history(model):
+    """Executions that raise half-way on an ill-formed variant of the model (one child is not a
+    Feature), then the well-formed model with the same operation objects."""
+    for path, _f in list(sh._paths(model[0]))[1:]:
+        for marker in ('__ALIEN_STR__', '__ALIEN_NONE__'):
+            bad = (sh._replace_feature(model[0], list(path), lambda g, marker=marker: (marker, (), g[2], g[3], g[4], g[5])), model[1])
+            ops = {}
+            try:
+                oracle(bd.build(bad), bad, ops)
+            except Exception:  # noqa: BLE001
+                pass
+            fm, fails = cm.built(model)
+            if fails:
+                return fails
+            after = oracle(fm, model, ops)
+            if not after:
+                after = oracle(bd.build(model), model)      # fresh objects: state outside the operation objects
+            for f in after:
+                f.clause = 'after-failed-execution:' + f.clause
+                f.detail = {'first': '%s at %s' % (marker, list(path)), 'info': f.detail}
+            if after:
+                return after
+    # ancestors: the feature is set once; an execution on a model that does not contain it is rejected,
+    # the execution on its own model afterwards gives its ancestors
+    fm, fails = cm.built(model)
+    if fails:
+        return fails
+    pm = sh.parent_map(model)
+    for feat in fm.get_features():
+        op = FMFeatureAncestors()
+        op.set_feature(feat)
+        try:
+            op.execute(bd.build(FOREIGN))
+        except Exception:  # noqa: BLE001
+            pass
+        engine.tick()
+        want = []
+        p = pm[feat.name]
+        while p is not None:
+            want.append(p)
+            p = pm[p]
+        try:
+            got = [f.name for f in op.execute(fm).get_result()]
+        except Exception as exc:  # noqa: BLE001
+            return [Fail('after-failed-execution:ancestors-raises:%s' % type(exc).__name__, {'feature': feat.name, 'msg': str(exc)[:200]})]
+        if got != want:
+            return [Fail('after-failed-execution:ancestors', {'feature': feat.name, 'got': got, 'want': want})]
+    return []
 
 
 def outcome(case):
